@@ -258,8 +258,12 @@ def render(prog, twin=False):
     """Python source of a module defining the program's function (module-level or built by a factory)."""
     defaults = prog.get("defaults") or {}
     params = ", ".join(n + (f"={p_expr(defaults[n], False)}" if n in defaults else "") for n in prog["params"])
-    ind = "    " if prog["closure"] else ""
+    ind = "    " if prog["closure"] or prog.get("klass") else ""
     lines = []
+    if prog.get("klass"):
+        # defined in a class body (a static method): private names (__x) are mangled with the class name
+        lines.append(f"class K{prog['name']}:")
+        lines.append("    @staticmethod")
     if prog["closure"]:
         lines.append(f"def make_{prog['name']}():")
         for i, c in enumerate(prog["closure"]):
@@ -279,6 +283,8 @@ def render(prog, twin=False):
     if prog["closure"]:
         lines.append(f"    return {prog['name']}")
         lines.append(f"{prog['name']} = make_{prog['name']}()")
+    if prog.get("klass"):
+        lines.append(f"{prog['name']} = K{prog['name']}.{prog['name']}")
     return HEADER + "\n".join(lines) + "\n"
 
 
